@@ -444,6 +444,15 @@ func runC06Invalid(w *caseWriter, id string, d c06Desc, st *c06Stats) {
 	// a format nobody registered
 	_, gerr := nfpm.Get("nosuchformat")
 	w.line("iset %s %s %d %s", xs("unknown-packager"), xs("nosuchformat"), b2i(gerr == nil), xs(fmt.Sprint(gerr)))
+	// hand-written documents, keys as documented, whose override block names a script that is not there
+	for _, f := range allFormats {
+		for _, k := range []string{"preinstall", "postinstall", "preremove", "postremove"} {
+			doc := "name: ovscript\narch: amd64\nversion: 1.0.0\nmaintainer: M <m@example.com>\noverrides:\n  " + f + ":\n    scripts:\n      " + k + ": scripts/no-such-script.sh\n"
+			err := packageInto(doc, f, io.Discard, nil)
+			w.line("iset %s %s %d %s", xs("override-block-script-missing"), xs(f), b2i(err == nil), xs(fmt.Sprint(err)))
+			st.invalid++
+		}
+	}
 	// a failing signing callback
 	boom := errors.New("callback says no")
 	for _, f := range []string{"deb", "rpm", "apk"} {
